@@ -488,7 +488,7 @@ Proof.
   set (s := lpos (pl p)) in *.
   assert (Hc1 : dat D s p1).
   { pif E.
-    - apply POk_inj in E. subst p1. split; [exact Hr|]. cbn [set_prevend set_tok set_err ptt pdata pl].
+    - apply POk_inj in E. subst p1. split; [exact Hr|]. cbn [set_prevend set_tok set_err set_buf ptt pdata pl].
       apply synth_one; [right; left; split; reflexivity|unfold s; lia].
     - pinv_bind E. destruct r as [[t d] q]. cbn [fst snd] in E. apply POk_inj in E. subst p1.
       destruct (pop_token_o D _ _ _ _ _ _ E1 Hr) as (Hrq & Ht & _). split; [exact Hrq|]. cbn [set_tok ptt pdata pl].
